@@ -238,7 +238,10 @@ def mk_named_msg(e, structs, layout, with_edns, sym_flags=False):
 
     def lab(tag, n):
         if (tag, n) not in pool:
-            pool[(tag, n)] = [z3.BitVec(f"lab_{tag}_{i}", 8) for i in range(n)]
+            if tag.startswith("="):     # concrete label (keeps long chains of distinct labels from forking on label equality)
+                pool[(tag, n)] = [z3.BitVecVal(ord(tag[1 + i % (len(tag) - 1)]), 8) for i in range(n)]
+            else:
+                pool[(tag, n)] = [z3.BitVec(f"lab_{tag}_{i}", 8) for i in range(n)]
         return Adt("Label", None, [Seq([BV(t) for t in pool[(tag, n)]])])
     qlabels, recs = layout
     secs = {0: [], 1: [], 2: []}
